@@ -1572,7 +1572,7 @@ pub(crate) fn derive_struct_diff_enum(enum_: &Enum) -> TokenStream {
                     if self == updated {{
                         vec![]
                     }} else {{
-                        vec![match updated {{
+                        vec![match {ref_diff_scrutinee} {{
                             {ref_diff_body}
                         }}]
                     }}
@@ -1597,6 +1597,8 @@ pub(crate) fn derive_struct_diff_enum(enum_: &Enum) -> TokenStream {
         struct_name = enum_.name,
         diff_body = diff_body,
         ref_diff_body = diff_body_ref,
+        // a reference to an enum without variants still counts as inhabited: such an enum is matched by value
+        ref_diff_scrutinee = if enum_.variants.is_empty() { "*updated" } else { "updated" },
         ref_into_owned_body = ref_into_owned_body,
         enum_name = enum_name,
         apply_single_body = apply_single_body,
